@@ -126,6 +126,7 @@ class Ctx:
         self.fpof = {k: (v if v else 1) for k, v in params["fp"].items()}
         self.cache = {}
         self.rt_seen = set()
+        self.c19_seen = set()
         self.tmp = tempfile.mkdtemp(prefix="cuckoo-", dir=tlc.scratch_root())
 
     def close(self):
@@ -220,7 +221,10 @@ class Ctx:
             return d
 
         if t.focus == "C19":
-            self._c19(t, f, before, rp)
+            k19 = hash(repr((c, hist)))
+            if k19 not in self.c19_seen:
+                self.c19_seen.add(k19)
+                self._c19(t, f, before, rp)
         raised = None
         ret = None
         try:
